@@ -75,7 +75,10 @@ NAPName(i) ==
     [] i = 14 -> [t |-> P_Lr, r |-> "lr"]           [] i = 15 -> [t |-> P_expire, r |-> "other"]
     [] i = 16 -> [t |-> P_expiress, r |-> "other"]  [] i = 17 -> [t |-> P_qq, r |-> "other"]
     [] i = 18 -> [t |-> P_l, r |-> "other"]         [] i = 19 -> [t |-> P_lrx, r |-> "other"]
-NNAPName == 19
+    \* other names of 1, 8, 10 and 13 characters (longer than every known name)
+    [] i = 20 -> [t |-> P_x, r |-> "other"]         [] i = 21 -> [t |-> P_received, r |-> "other"]
+    [] i = 22 -> [t |-> P_xlifetime, r |-> "other"] [] i = 23 -> [t |-> P_instance, r |-> "other"]
+NNAPName == 23
 
 \* parameter values: eq = an "=" is written; num = the text is a digit string (an expires value);
 \* q = the qvalue times 1000, -1 when the text is not a valid qvalue ("0" ["." 0*3DIGIT] / "1" ["." 0*3("0")])
